@@ -339,6 +339,8 @@ def step(root, scratch, src_model, lab, dst_model, src_ans, seed=0, who=None, op
     present = set(dst_model["loose"]) | {i for p in dst_model["packs"] for i in p[0]}
     awr, anr = restrict(aw, present), restrict(an, present)
     for q, (key, va, vb) in diff_answers(awr, anr).items():
+        if act in ("SetGraft", "SetShallow"):
+            break                         # graft points / shallow file are primary data a process reads when it opens
         if q in fresh_bad:
             continue                      # already reported for the fresh reader
         doer = "self" if who == "w" else "other"
